@@ -55,4 +55,16 @@ theorem C12_pipeline_fixed_point (cfg : Gen.DecoderCfg) (path : Bytes) (flags : 
 
 example : normalizePath (b!"/a/../../b/./c/..") = (b!"/b") ∧ normalizePath (b!"/b") = (b!"/b") := by decide
 
+/-- the hex-digit arithmetic of `x2c` (htp_util.c): `(c >= 'A' ? ((c & 0xdf) - 'A') + 10 : (c - '0'))`, in unsigned char -/
+def x2cDigit (b : UInt8) : UInt8 := if b ≥ 0x41 then ((b &&& 0xdf) - 0x41) + 10 else b - 0x30
+
+/-- **C12 (the escape table is the documented arithmetic)**: the two x2c tables the translator regenerates from the current source on every
+    run are, for all 256 bytes - valid hex digits or not, which matters under HTP_URL_DECODE_PROCESS_INVALID - exactly
+    `digit(a) * 16 + digit(b)`. A change to `x2c` that keeps valid escapes intact but moves any other byte breaks this by kernel evaluation. -/
+theorem C12_x2c_table : ∀ b : UInt8, Htp.Gen.x2cLo b = x2cDigit b ∧ Htp.Gen.x2cHi b = x2cDigit b * 16 := by
+  apply forall_uint8_of_lt
+  decide +kernel
+
+example : Htp.Gen.x2cHi 0x34 + Htp.Gen.x2cLo 0x31 = 0x41 ∧ Htp.Gen.x2cSeparable = true := by decide
+
 end Htp.C12
